@@ -90,16 +90,23 @@ def _any_text(v) -> str:
 		return f"<{type(v).__name__}>"
 
 
-def _format_column(col, max_preview: int | None = None) -> List[str]:
-	"""Returns a list of strings representing that column, truncated for display."""
+def _format_column(col, max_rows: int | None = None) -> List[str]:
+	"""Returns a list of strings representing that column, truncated for display.
+
+	max_rows is the total number of rows shown (head + tail), as set_repr_rows() documents.
+	"""
 	# Use global default if not specified
-	if max_preview is None:
-		max_preview = _REPR_ROWS_DEFAULT // 2
-	
-	# Truncate with symmetric preview
+	if max_rows is None:
+		max_rows = _REPR_ROWS_DEFAULT
+	max_rows = max(int(max_rows), 0)
+	# Data that fits the limit is shown whole. An odd limit gives its extra row to the head
+	# (halving it hid a row of data exactly as long as the limit, and a limit of 0 or 1 -
+	# no tail - printed '...' followed by every row, vals[-0:] being the whole tuple)
+	head, tail = max_rows - max_rows // 2, max_rows // 2
+
 	vals = col._underlying
-	if len(vals) > max_preview * 2:
-		preview = list(vals[:max_preview]) + [_ELLIPSIS] + list(vals[-max_preview:])
+	if len(vals) > max_rows:
+		preview = list(vals[:head]) + [_ELLIPSIS] + list(vals[len(vals) - tail:])
 	else:
 		preview = list(vals)
 
@@ -357,7 +364,7 @@ def _repr_table(tbl) -> str:
 	# Check if table has custom repr_rows setting
 	max_preview = None
 	if hasattr(tbl, '_repr_rows') and tbl._repr_rows is not None:
-		max_preview = tbl._repr_rows // 2
+		max_preview = tbl._repr_rows
 	
 	cols = tbl.cols()
 	num_cols = len(cols)
@@ -387,7 +394,7 @@ def _repr_table(tbl) -> str:
 			dtypes_all.append("object")
 
 	# Format columns
-	formatted_cols = [_format_column(cols[i], max_preview=max_preview) for i in col_indices]
+	formatted_cols = [_format_column(cols[i], max_preview) for i in col_indices]
 
 	# Insert "..." column if truncated
 	if truncated:
